@@ -113,6 +113,7 @@ def run(F, R, ctx):
         jitmodel.name_table_gate_rule(F, R, "C02.n")
     slice_guard_rule(F, R)
     arg_conversion_rule(F, R)
+    select_rule(F, R)
     # ---- c
     nat = natives(F)
     R.floor("C07.c", "native primitives", len(nat), 400)
@@ -366,3 +367,35 @@ def arg_conversion_rule(F, R):
                        fn.short(), lib.short_name(prod["callee"]) if prod else "?", b["line"]), fn.loc(b["line"]),
                    sample=True)
     R.floor("C07.u", "unwraps of argument-derived Result<_, SteelErr> in native primitives", sites, 3)
+
+
+def select_rule(F, R):
+    R.rule("C07.x", "waiting on a crossbeam Select built from the argument list happens only when the list is not empty: every "
+                    "call of Select::{ready, select, ready_timeout, select_timeout, …} in a native primitive is dominated by a "
+                    "branch on the emptiness / length of the argument slice (crossbeam panics on an empty selection)")
+    n = 0
+    for fn, arg in natives(F):
+        waits = [(i, b) for i, b in fn.calls() if re.search(r"crossbeam_channel::select::\{impl Select[^}]*\}::(ready|select|try_ready|try_select)\w*$", b["callee"])]
+        if not waits:
+            continue
+        dom = fn.dominators()
+        maps = _backward(fn)
+        for i, b in waits:
+            n += 1
+            ok = False
+            for sb in dom[i]:
+                blk = fn.blocks[sb]
+                if blk["k"] != "switch":
+                    continue
+                loc = re.match(r"_\d+", blk.get("place", "").strip("()*"))
+                if not loc:
+                    continue
+                org = _origins(fn, loc.group(0), maps)
+                if any(o.split(".")[0] in maps[2] and re.search(r"\{impl \[T\]\}::(is_empty|len)$", maps[2][o.split(".")[0]]["callee"])
+                       for o in org):
+                    ok = True
+            R.inst("C07.x", "%s / Select wait is guarded by a non-empty test" % fn.short(), ok,
+                   "%s waits on a crossbeam Select built from its arguments without first testing that there is at least one: "
+                   "called with no receiver it panics inside the native frame ('no operations have been added to Select')" %
+                   fn.short(), fn.loc(b["line"]), sample=True)
+    R.floor("C07.x", "Select waits in native primitives", n, 1)
